@@ -541,15 +541,35 @@ func (c *Client) completeCommand(cmd command, err error) {
 	}
 }
 
+// registerContReq registers a continuation request for a pending command.
+//
+// The command must have been started with beginCommand. If the command has
+// already been completed (e.g. the server has refused a previous literal of the
+// same command), a cancelled continuation request is returned: it must not stay
+// in the queue, where it would steal the continuation request of a later
+// command.
 func (c *Client) registerContReq(cmd command) *imapwire.ContinuationRequest {
 	contReq := imapwire.NewContinuationRequest()
 
 	c.mutex.Lock()
-	c.contReqs = append(c.contReqs, continuationRequest{
-		ContinuationRequest: contReq,
-		cmd:                 cmd.base(),
-	})
+	pending := false
+	for _, pendingCmd := range c.pendingCmds {
+		if pendingCmd.base() == cmd.base() {
+			pending = true
+			break
+		}
+	}
+	if pending {
+		c.contReqs = append(c.contReqs, continuationRequest{
+			ContinuationRequest: contReq,
+			cmd:                 cmd.base(),
+		})
+	}
 	c.mutex.Unlock()
+
+	if !pending {
+		contReq.Cancel(fmt.Errorf("imapclient: command already completed"))
+	}
 
 	return contReq
 }
